@@ -48,13 +48,13 @@ CLAIMED = {
         "design_ref": "DESIGN.md §5 C17",
     },
     "C18": {
-        "technique": "deterministic simulation: a monitor on every DeepCopy event of simulated pipeline runs (copy seam inserted by the instrumenter) plus node-by-node copying of fixture and generated IR graphs; reflective equality and disjointness-of-mutable-locations oracles; replay",
-        "text": "Every outermost DeepCopy call of real pipeline runs (with builders, veneers, converters) and every DeepCopy method reachable in 47 fixture graphs and in generated contexts is judged: copy equals receiver field by field; no slice array, map or pointer target is reachable from both through declared fields.",
+        "technique": "deterministic simulation: a monitor on every DeepCopy event of simulated pipeline runs (copy seam inserted by the instrumenter) plus node-by-node copying of fixture, generated and synthetic IR graphs (values of every ast type drawn field by field from the seed) and seeded duplicate_object rules judged against their source; reflective equality and disjointness-of-mutable-locations oracles; replay",
+        "text": "Every outermost DeepCopy call of real pipeline runs (with builders, veneers, converters) and every DeepCopy method reachable in 47 fixture graphs, in generated contexts and in synthetic roots (Type, Object, Schema, Schemas, Builder, Option, Assignment, BuilderFactory, Constructor, Argument) is judged: copy equals receiver field by field; no slice array, map or pointer target is reachable from both through declared fields.",
         "note": "Sharing that is only reachable through an `any` payload (Default, constant values, constraint args, hint values) is counted in evidence as unexploited_sharing and not raised: no transformation writes those in place (DESIGN.md §5 C18). nil and empty collections are treated alike.",
         "design_ref": "DESIGN.md §5 C18",
     },
     "C19": {
-        "technique": "deterministic simulation: seeded operation histories (incl. re-entrant callbacks, FromMap under a scheduled map order) against a slice-of-pairs reference model, checked after every operation, shrunk and replayed",
+        "technique": "deterministic simulation: seeded operation histories (incl. re-entrant callbacks that remove keys at seeded visits with a visit oracle, FromMap under a scheduled map order) against a slice-of-pairs reference model, checked after every operation, shrunk and replayed",
         "text": "Seeded sampling of operation histories over the real orderedmap.Map with a reference model as oracle after every step. Sampling, not enumeration: a clean batch is evidence that no short history breaks the map, not a proof.",
         "note": "Trusts the reference model (a slice of pairs, 30 lines) and the instrumented copy being behaviour-equivalent to /repo (selftest equivalence). Equal() and out-of-range At() are exercised but not judged: the statement does not cover them.",
         "design_ref": "DESIGN.md §5 C19",
